@@ -152,6 +152,59 @@ func c18Run(c *Ctx, idx int) {
 	}
 }
 
+// null-elements: e1 ends in a bare projection over an array with nulls before
+// the first match; the piped form must still equal the two-step form
+func c18Nulls(c *Ctx, idx int) {
+	r := c.Rand("")
+	xs := &ref.Arr{}
+	n := 2 + r.Intn(6)
+	for i := 0; i < n; i++ {
+		switch r.Intn(4) {
+		case 0:
+			xs.E = append(xs.E, nil)
+		case 1:
+			o := ref.NewObj()
+			o.Set("a", gen.Pick(r, []ref.V{"x", "y", nil, gen.IntV(1), true, false}))
+			xs.E = append(xs.E, o)
+		case 2:
+			o := ref.NewObj()
+			o.Set("b", gen.IntV(int64(i)))
+			xs.E = append(xs.E, o)
+		default:
+			xs.E = append(xs.E, gen.Scalar(r))
+		}
+	}
+	if r.Chance(60) {
+		xs.E[0] = nil
+	}
+	doc := ref.NewObj()
+	doc.Set("xs", xs)
+	doc.Set("o", gen.Object(r, 1))
+	goDoc := ref.ToGo(doc, ref.JSONNumber)
+	e1s := []string{"xs[?a != 'x']", "xs[?!a]", "xs[?a == `null`]", "xs[?@ == `null`]", "xs[?!@]", "xs[?b || !a]", "xs[?`true`]", "xs[*]", "xs[]", "xs[1:]", "xs[::-1]", "o.*", "xs[?a != 'x'].a", "xs", "xs[?a]", "[xs[0], xs[1]]", "xs[?@ != `1`]"}
+	e2s := []string{"[0]", "[-1]", "[1]", "[0:2]", "[*]", "[]", "length(@)", "[?@ == `null`]", "[0].a", "@[0]", "type([0])", "[0] == `null`", "not_null([0], 'N')", "reverse(@)[0]"}
+	e1 := gen.Pick(r, e1s)
+	l1 := c.LibSearch(e1, goDoc)
+	if l1.Err != nil || l1.Panic != nil {
+		return
+	}
+	for _, e2 := range e2s {
+		for _, piped := range []string{e1 + " | " + e2, "(" + e1 + ") | " + e2} {
+			want := c.LibSearch(piped, goDoc)
+			got := c.LibSearch(e2, l1.Res)
+			if strings.Contains(e1, "*") && strings.Contains(e1, "o.") {
+				if m := ref.Search(piped, doc); m.Unspec {
+					continue
+				}
+			}
+			if !SameOutcome(want, got, Enumerates(e1)) {
+				c.Report(Violation{Rule: "C18/requery", Expr: piped, Data: gen.Describe(goDoc), Got: ShowOut(got) + "  (Search(" + e2 + ", r1) with r1 = " + clipS(gen.Describe(l1.Res), 300) + ")", Want: ShowOut(want)})
+			}
+		}
+	}
+	c.Nontrivial(e1, ref.ToJSONText(doc))
+}
+
 // extremes: arithmetic near the ends of each numeric representation must give
 // an error or a finite number, never an infinity/NaN value
 func c18Extremes(c *Ctx, idx int) {
@@ -193,6 +246,7 @@ func init() {
 		Streams: []Stream{
 			{Name: "requery", N: func(c *Ctx) int { return tierN(c, 20000, 300000) }, Run: c18Run},
 			{Name: "extremes", N: func(c *Ctx) int { return tierN(c, 3000, 60000) }, Run: c18Extremes},
+			{Name: "null-elements", N: func(c *Ctx) int { return tierN(c, 3000, 60000) }, Run: c18Nulls},
 		},
 	})
 }
